@@ -304,7 +304,7 @@ pub fn run(ctx: &Ctx, r: &mut Report) {
 		return;
 	}
 	let ms = reg::methods();
-	let nlen = ctx.pick(12, 254);
+	let nlen = ctx.pick(40, 254);
 	let mut k = 0u64;
 	for m in &ms {
 		if m.name == "Renko" || m.name == "CollapseTimeframe" {
@@ -340,7 +340,7 @@ pub fn run(ctx: &Ctx, r: &mut Report) {
 		}
 	}
 	for d in reg::indicators() {
-		let cfgs = icfg::configs(&d, ctx.pick(6, 60), ctx.seed);
+		let cfgs = icfg::configs(&d, ctx.pick(20, 60), ctx.seed);
 		for (ci, cfg) in cfgs.iter().enumerate() {
 			k += 1;
 			if !ctx.mine(k) {
